@@ -9,6 +9,7 @@ import (
 	"go/constant"
 	"go/token"
 	"go/types"
+	"regexp"
 	"strconv"
 	"strings"
 
@@ -53,23 +54,7 @@ func c08StmtOf(fn *ssa.Function, v ssa.Value) *c08Stmt {
 			v = x.X
 		case *ssa.Alloc:
 			// a local copy: one assignment of the whole value, a loaded slice element; no field is written afterwards
-			var st *ssa.Store
-			if x.Referrers() == nil {
-				return nil
-			}
-			for _, r := range *x.Referrers() {
-				switch y := r.(type) {
-				case *ssa.Store:
-					if y.Addr != ssa.Value(x) || st != nil {
-						return nil
-					}
-					st = y
-				case *ssa.FieldAddr:
-					if addrWritten(y, 0) {
-						return nil
-					}
-				}
-			}
+			st := c08WholeStore(x)
 			if st == nil {
 				return nil
 			}
@@ -93,6 +78,28 @@ func c08StmtOf(fn *ssa.Function, v ssa.Value) *c08Stmt {
 		}
 	}
 	return nil
+}
+
+// c08WholeStore: the local variable x is assigned exactly once, as a whole, and no field of it is written: the store.
+func c08WholeStore(x *ssa.Alloc) *ssa.Store {
+	var st *ssa.Store
+	if x.Referrers() == nil {
+		return nil
+	}
+	for _, r := range *x.Referrers() {
+		switch y := r.(type) {
+		case *ssa.Store:
+			if y.Addr != ssa.Value(x) || st != nil {
+				return nil
+			}
+			st = y
+		case *ssa.FieldAddr:
+			if addrWritten(y, 0) {
+				return nil
+			}
+		}
+	}
+	return st
 }
 
 // c08Facts: the facts that hold whenever control enters block `at` after the most recent execution of block `birth`:
@@ -404,6 +411,21 @@ next:
 			if i >= len(binds) {
 				continue next
 			}
+			if _, byRef := binds[i].(*ssa.Alloc); !byRef {
+				// bound by value (the receiver of a method value `state.method`): a snapshot taken when the closure is
+				// made. A struct literal built on the spot is rendered field by field with the values it was given.
+				if fields, isLit := c08LitFields(binds[i]); isLit {
+					for f, d := range fields {
+						l = c08SubstToken(l, tok+"."+f, d)
+					}
+					if strings.Contains(l, tok) {
+						continue next
+					}
+					continue
+				}
+				l = c08SubstToken(l, tok, desc(binds[i]))
+				continue
+			}
 			d, ok := c08CapturedValue(binds[i])
 			if !ok {
 				continue next // the captured variable may change: nothing is known about this fact's operand
@@ -422,6 +444,7 @@ next:
 
 // c08Alt: one alternative for a value of statement-pointer type.
 type c08Alt struct {
+	Param  *ssa.Parameter    // the value of a parameter of the frame (with Other set): resolved at the call site
 	Nil    bool              // the nil pointer ("nothing selected")
 	Other  string            // not understood (rendering / reason)
 	Cloned bool              // the result of a clone
@@ -497,6 +520,271 @@ func (r *c08Resolver) stmtAlt(fn *ssa.Function, S *c08Stmt, at *ssa.BasicBlock) 
 	return alt
 }
 
+// ---- a statement remembered by its index ----------------------------------------------------------------------------
+
+// c08IsInduction: p is a loop counter (one of its edges is p plus or minus something): it is not a variable in which
+// an index is remembered.
+func c08IsInduction(p *ssa.Phi) bool {
+	for _, e := range p.Edges {
+		if bo, ok := e.(*ssa.BinOp); ok && (bo.Op == token.ADD || bo.Op == token.SUB) && (bo.X == ssa.Value(p) || bo.Y == ssa.Value(p)) {
+			return true
+		}
+	}
+	return false
+}
+
+// c08IdxEdge: one assignment to an index variable: the value and the block at the end of which it is assigned.
+type c08IdxEdge struct {
+	V    ssa.Value
+	Pred *ssa.BasicBlock
+}
+
+// c08IndexEdges: the assignments that can give the index variable p (a phi that is not a loop counter) its value,
+// followed through phis that merge such variables.
+func c08IndexEdges(p *ssa.Phi, seen map[*ssa.Phi]bool) []c08IdxEdge {
+	if seen[p] {
+		return nil
+	}
+	seen[p] = true
+	var out []c08IdxEdge
+	for i, e := range p.Edges {
+		if e == ssa.Value(p) {
+			continue
+		}
+		if q, ok := e.(*ssa.Phi); ok && !c08IsInduction(q) {
+			out = append(out, c08IndexEdges(q, seen)...)
+			continue
+		}
+		out = append(out, c08IdxEdge{e, p.Block().Preds[i]})
+	}
+	return out
+}
+
+// c08NegConst: a negative integer constant ("no index": indexing with it panics).
+func c08NegConst(v ssa.Value) bool {
+	k, ok := v.(*ssa.Const)
+	if !ok || k.Value == nil || k.Value.Kind() != constant.Int {
+		return false
+	}
+	n, exact := constant.Int64Val(k.Value)
+	return exact && n < 0
+}
+
+// c08StmtAtIndex: element idx of slice, as a statement that comes to life where idx does.
+func c08StmtAtIndex(fn *ssa.Function, slice, idx ssa.Value) *c08Stmt {
+	b := fn.Blocks[0]
+	if in, ok := idx.(ssa.Instruction); ok && in.Block() != nil {
+		b = in.Block()
+	}
+	return &c08Stmt{D: desc(slice) + "[" + descIndex(idx) + "]", Slice: slice, Idx: idx, Birth: b}
+}
+
+// stmtAlts: the statements S can denote. When the index is held in a variable (a phi that is not a loop counter: the
+// position of a candidate remembered during the scan), S is, for each assignment `variable = e`, element e of the
+// slice with what was known about that element when it was remembered (the facts of that iteration, judged at the end
+// of the assigning block) — the element is the same one later on because the slice is not written in between
+// (c08DocUnwritten). An assignment of a negative constant ("nothing remembered") yields no statement: indexing with it
+// panics, nothing is handed out.
+func (r *c08Resolver) stmtAlts(fn *ssa.Function, S *c08Stmt, at *ssa.BasicBlock, depth int, seen map[*ssa.Phi]bool) []c08Alt {
+	// the position was found by a module helper (it returns one or several positions): see posFromCall
+	if call, k := c08CallResult(S.Idx); call != nil {
+		if g := staticCallee(call); g != nil && g.Blocks != nil && r.w.IsProductFn(g) && depth < 5 {
+			return r.posFromCall(fn, S, call, k)
+		}
+	}
+	p, ok := S.Idx.(*ssa.Phi)
+	if !ok || c08IsInduction(p) {
+		return []c08Alt{r.stmtAlt(fn, S, at)}
+	}
+	if why := c08DocUnwritten(r.w, fn, S.Slice); why != "" {
+		return []c08Alt{{Other: "statement at a remembered index of " + desc(S.Slice) + ", but " + why}}
+	}
+	var out []c08Alt
+	for _, e := range c08IndexEdges(p, map[*ssa.Phi]bool{}) {
+		if c08NegConst(e.V) {
+			continue
+		}
+		out = append(out, r.stmtAlt(fn, c08StmtAtIndex(fn, S.Slice, e.V), e.Pred))
+	}
+	return out
+}
+
+// c08CallResult: v is the k-th result of a call.
+func c08CallResult(v ssa.Value) (*ssa.Call, int) {
+	switch x := v.(type) {
+	case *ssa.Call:
+		if _, isTuple := x.Type().(*types.Tuple); !isTuple {
+			return x, 0
+		}
+	case *ssa.Extract:
+		if call, ok := x.Tuple.(*ssa.Call); ok {
+			return call, x.Index
+		}
+	}
+	return nil, 0
+}
+
+// posFromCall: statement S = slice[idx] of frame fn where idx is the k-th result of a call of module helper g. For every
+// value e the helper can return there (followed through its position variables; a negative constant is "none": indexing
+// with it panics), the statement is element e of the list the HELPER indexed with e — which must be the caller's slice
+// once the helper's parameters are replaced by the arguments — with the facts the helper had about that element when it
+// remembered the position, moved into the caller's frame. Neither frame writes the document (c08DocUnwritten, which
+// follows the document into the helper), so the position still denotes the same statement when the caller uses it.
+func (r *c08Resolver) posFromCall(fn *ssa.Function, S *c08Stmt, call *ssa.Call, k int) []c08Alt {
+	g := staticCallee(call)
+	if k >= g.Signature.Results().Len() || len(call.Call.Args) != len(g.Params) {
+		return []c08Alt{{Other: desc(S.Idx)}}
+	}
+	if why := c08DocUnwritten(r.w, fn, S.Slice); why != "" {
+		return []c08Alt{{Other: "statement at a position found by " + fnName(g) + ", but " + why}}
+	}
+	var names, descs []string
+	for i, p := range g.Params {
+		names = append(names, p.Name())
+		descs = append(descs, desc(call.Call.Args[i]))
+	}
+	want := desc(S.Slice)
+	var out []c08Alt
+	for _, b := range g.Blocks {
+		ret, ok := blockTerm(b).(*ssa.Return)
+		if !ok || k >= len(ret.Results) {
+			continue
+		}
+		edges := []c08IdxEdge{{ret.Results[k], b}}
+		if q, isPhi := ret.Results[k].(*ssa.Phi); isPhi && !c08IsInduction(q) {
+			edges = c08IndexEdges(q, map[*ssa.Phi]bool{})
+		}
+		for _, e := range edges {
+			if c08NegConst(e.V) {
+				continue
+			}
+			// the list the helper indexed with this value
+			var list ssa.Value
+			if e.V.Referrers() != nil {
+				for _, ref := range *e.V.Referrers() {
+					if ia, isIA := ref.(*ssa.IndexAddr); isIA && ia.Index == e.V && substParams(desc(ia.X), names, descs) == want {
+						list = ia.X
+					}
+				}
+			}
+			if list == nil {
+				out = append(out, c08Alt{Other: "position " + desc(e.V) + " returned by " + fnName(g) + " is not a position in " + want})
+				continue
+			}
+			alt := r.stmtAlt(g, c08StmtAtIndex(g, list, e.V), e.Pred)
+			if alt.Other != "" || len(alt.Dyn) > 0 {
+				out = append(out, c08Alt{Other: "position returned by " + fnName(g) + ": " + alt.Other})
+				continue
+			}
+			lifted := c08Alt{Doc: substParams(alt.Doc, names, descs), Facts: map[string]string{}, Site: alt.Site}
+			for l, site := range alt.Facts {
+				lifted.Facts[substParams(l, names, descs)] = site
+			}
+			out = append(out, lifted)
+		}
+	}
+	return out
+}
+
+// c08Root: the value an address / element / sub-slice expression is derived from.
+func c08Root(v ssa.Value) ssa.Value {
+	for i := 0; i < 12; i++ {
+		switch x := v.(type) {
+		case *ssa.UnOp:
+			if x.Op != token.MUL {
+				return v
+			}
+			v = x.X
+		case *ssa.FieldAddr:
+			v = x.X
+		case *ssa.Field:
+			v = x.X
+		case *ssa.IndexAddr:
+			v = x.X
+		case *ssa.Index:
+			v = x.X
+		case *ssa.Slice:
+			v = x.X
+		case *ssa.ChangeType:
+			v = x.X
+		default:
+			return v
+		}
+	}
+	return v
+}
+
+// c08DocUnwritten: the slice (a field reached from a parameter of fn: the document) and its elements are not written
+// while fn runs: no store through an address derived from that parameter, and everything derived from it that can be
+// written through (pointers, slices, maps) is handed only to module functions for which the same holds, to len/cap, or
+// to the searching functions of the standard library. "" if so, else the reason.
+func c08DocUnwritten(w *World, fn *ssa.Function, slice ssa.Value) string {
+	root, ok := c08Root(slice).(*ssa.Parameter)
+	if !ok {
+		return "the slice is not reached from a parameter"
+	}
+	return c08ParamUnwritten(w, fn, root, 0, map[*ssa.Function]bool{})
+}
+
+func c08ParamUnwritten(w *World, fn *ssa.Function, root *ssa.Parameter, depth int, busy map[*ssa.Function]bool) string {
+	if depth > 4 {
+		return "call chain too deep below " + fnName(fn)
+	}
+	if busy[fn] {
+		return ""
+	}
+	busy[fn] = true
+	defer delete(busy, fn)
+	for _, b := range fn.Blocks {
+		for _, in := range b.Instrs {
+			switch x := in.(type) {
+			case *ssa.Store:
+				if c08Root(x.Addr) == ssa.Value(root) {
+					return fnName(fn) + " writes to " + desc(x.Addr)
+				}
+				if c08Root(x.Val) == ssa.Value(root) && hasRefComponents(x.Val.Type(), 0) {
+					if _, local := x.Addr.(*ssa.Alloc); !local {
+						return fnName(fn) + " stores " + desc(x.Val) + " away"
+					}
+				}
+			case *ssa.MapUpdate:
+				if c08Root(x.Map) == ssa.Value(root) {
+					return fnName(fn) + " writes to " + desc(x.Map)
+				}
+			case ssa.CallInstruction:
+				com := x.Common()
+				for i, a := range com.Args {
+					if c08Root(a) != ssa.Value(root) || !hasRefComponents(a.Type(), 0) {
+						continue
+					}
+					if bi, ok := com.Value.(*ssa.Builtin); ok {
+						if bi.Name() == "len" || bi.Name() == "cap" || ((bi.Name() == "append" || bi.Name() == "copy") && i > 0) {
+							continue // read only (append and copy write through their first operand only)
+						}
+						return fnName(fn) + " hands " + desc(a) + " to " + bi.Name()
+					}
+					g := staticCallee(x)
+					if g == nil {
+						return fnName(fn) + " hands " + desc(a) + " to a dynamic call"
+					}
+					if g.Blocks != nil && w.IsProductFn(g) && len(com.Args) == len(g.Params) {
+						if why := c08ParamUnwritten(w, g, g.Params[i], depth+1, busy); why != "" {
+							return why
+						}
+						continue
+					}
+					switch fnName(g) {
+					case "slices.Contains", "slices.ContainsFunc", "slices.Index", "slices.IndexFunc":
+						continue
+					}
+					return fnName(fn) + " hands " + desc(a) + " to " + fnName(g)
+				}
+			}
+		}
+	}
+	return ""
+}
+
 // applyPred adds what the predicate value pred (of frame fn) answering truth says about the statement.
 func (r *c08Resolver) applyPred(fn *ssa.Function, alt *c08Alt, pred ssa.Value, truth bool) {
 	switch x := pred.(type) {
@@ -519,6 +807,40 @@ func (r *c08Resolver) applyPred(fn *ssa.Function, alt *c08Alt, pred ssa.Value, t
 			}
 		}
 		alt.Other = "predicate " + desc(pred) + " not resolved"
+	case *ssa.Call:
+		// the predicate is built by a module function (a constructor of the closure: `hasName(name)`): the facts of the
+		// closure it returns — its single return — with the constructor's parameters replaced by the arguments
+		g := staticCallee(x)
+		var made ssa.Value
+		n := 0
+		if g != nil && g.Blocks != nil && r.w.IsProductFn(g) && g.Signature.Results().Len() == 1 && len(x.Call.Args) == len(g.Params) {
+			for _, b := range g.Blocks {
+				if ret, ok := blockTerm(b).(*ssa.Return); ok && len(ret.Results) == 1 {
+					made = ret.Results[0]
+					n++
+				}
+			}
+		}
+		if n != 1 {
+			alt.Other = "predicate " + desc(pred) + " not resolved"
+			return
+		}
+		pf, ok := c08PredFacts(r.w, made, truth)
+		if !ok {
+			alt.Other = "predicate made by " + fnName(g) + " not summarised"
+			return
+		}
+		var names, descs []string
+		for i, p := range g.Params {
+			names = append(names, p.Name())
+			descs = append(descs, desc(x.Call.Args[i]))
+		}
+		for l, site := range pf {
+			l = substParams(l, names, descs)
+			if _, has := alt.Facts[l]; !has {
+				alt.Facts[l] = site
+			}
+		}
 	default:
 		alt.Other = "predicate " + desc(pred) + " not resolved"
 	}
@@ -540,6 +862,8 @@ func (r *c08Resolver) resolve(fn *ssa.Function, v ssa.Value, at *ssa.BasicBlock,
 		}
 	case *ssa.ChangeType:
 		return r.resolve(fn, x.X, at, depth+1, seen)
+	case *ssa.Parameter:
+		return []c08Alt{{Param: x, Other: desc(v)}}
 	case *ssa.Phi:
 		if seen[x] {
 			return nil // loop-carried: its other edges are judged where first met
@@ -561,7 +885,7 @@ func (r *c08Resolver) resolve(fn *ssa.Function, v ssa.Value, at *ssa.BasicBlock,
 		return r.resolveCall(fn, x, 0, at, depth, seen)
 	}
 	if S := c08StmtOf(fn, v); S != nil {
-		return []c08Alt{r.stmtAlt(fn, S, at)}
+		return r.stmtAlts(fn, S, at, depth, seen)
 	}
 	return []c08Alt{{Other: desc(v)}}
 }
@@ -575,9 +899,14 @@ func (r *c08Resolver) resolveCall(fn *ssa.Function, call *ssa.Call, k int, at *s
 	if isCloneMethod(g) {
 		arg := call.Call.Args[0]
 		if S := c08StmtOf(fn, arg); S != nil {
-			alt := r.stmtAlt(fn, S, call.Block())
-			alt.Cloned = true
-			return []c08Alt{alt}
+			alts := r.stmtAlts(fn, S, call.Block(), depth, seen)
+			for i := range alts {
+				alts[i].Cloned = true
+			}
+			if len(alts) == 0 {
+				return []c08Alt{{Other: "clone of " + desc(arg), Cloned: true}}
+			}
+			return alts
 		}
 		// the clone of a remembered candidate: the candidate's alternatives, each one cloned
 		if u, ok := arg.(*ssa.UnOp); ok && u.Op == token.MUL {
@@ -635,6 +964,16 @@ func (r *c08Resolver) resolveCall(fn *ssa.Function, call *ssa.Call, k int, at *s
 			}
 		}
 		for _, alt := range r.resolve(g, ret.Results[k], b, depth+1, map[*ssa.Phi]bool{}) {
+			if alt.Param != nil {
+				// the helper hands one of its arguments back (it picks among candidates): that argument, as the caller
+				// has it when it makes the call
+				for i, p := range g.Params {
+					if p == alt.Param {
+						out = append(out, r.resolve(fn, call.Call.Args[i], call.Block(), depth+1, seen)...)
+					}
+				}
+				continue
+			}
 			if alt.Nil || (alt.Other != "" && alt.Facts == nil) {
 				out = append(out, alt)
 				continue
@@ -680,18 +1019,110 @@ func c08NonNilAt(fi *FnInfo, v ssa.Value, b *ssa.BasicBlock) bool {
 	return false
 }
 
-// c08AfterSearchFails: once the loop sl of g has run out of elements, g fails (error result) or hands out no
-// statement (no error result: every reachable return yields nil).
+// c08AfterSearchFails: once the loop sl of g has run out of elements — control takes the edge from the loop header to
+// the loop exit; a `break` out of the body may lead to the same block but is not that edge — g fails (error result) or
+// hands out no statement (no error result: every reachable return yields nil, where a result variable merged at the
+// loop exit counts with the value it has on the exhausted edge).
 func c08AfterSearchFails(w *World, g *ssa.Function, sl sliceLoop) (bool, []string) {
 	fi := w.Info(g)
 	res := g.Signature.Results()
+	starts := []state{{sl.Header.Index, 0, -1}}
+	cut := map[edgeKey]bool{}
+	for j, sc := range sl.Header.Succs {
+		if sc != sl.Exit {
+			cut[edgeKey{sl.Header.Index, j}] = true
+		}
+	}
+	exhausted := -1
+	for pi, pb := range sl.Exit.Preds {
+		if pb == sl.Header {
+			exhausted = pi
+		}
+	}
+	// A position variable merged at the loop exit (`found := -1; for … { if … { found = i; break } }`) holds, on the
+	// exhausted edge, the constant it was given before the loop: branches that test this very variable (SSA identity)
+	// against a constant are decided for the paths that start on that edge — as long as the exit block cannot be
+	// entered a second time (then the variable could have another value).
+	if exhausted >= 0 && !fi.reachHit([]state{{sl.Exit.Index, 0, -1}}, nil, map[int]bool{sl.Exit.Index: true}) {
+		for _, p := range headerPhis(sl.Exit) {
+			k, ok := c08ConstOnEdge(p.Edges[exhausted])
+			if !ok {
+				continue
+			}
+			for _, b := range g.Blocks {
+				iff, isIf := blockTerm(b).(*ssa.If)
+				if !isIf || len(b.Succs) != 2 {
+					continue
+				}
+				cond, neg := iff.Cond, false
+				for {
+					u, isNot := cond.(*ssa.UnOp)
+					if !isNot || u.Op != token.NOT {
+						break
+					}
+					cond, neg = u.X, !neg
+				}
+				bo, isBin := cond.(*ssa.BinOp)
+				if !isBin {
+					continue
+				}
+				op := bo.Op
+				var other ssa.Value
+				switch {
+				case bo.X == ssa.Value(p):
+					other = bo.Y
+				case bo.Y == ssa.Value(p):
+					other, op = bo.X, c08FlipOp(op)
+				default:
+					continue
+				}
+				c, isK := c08ConstOnEdge(other)
+				if _, direct := other.(*ssa.Const); !isK || !direct {
+					continue
+				}
+				truth, decided := cmpInt(op, k, c)
+				if !decided {
+					continue
+				}
+				if truth != neg {
+					cut[edgeKey{b.Index, 1}] = true // the condition holds: the false branch is not taken
+				} else {
+					cut[edgeKey{b.Index, 0}] = true
+				}
+			}
+		}
+	}
 	if n := res.Len(); n > 0 && isErrorType(res.At(n-1).Type()) {
-		wit := fi.successWitness(Mode{Kind: mErr}, []state{{sl.Exit.Index, 0, -1}}, nil)
+		wit := fi.successWitness(Mode{Kind: mErr}, starts, cut)
 		return wit == nil, wit
 	}
-	for st := range fi.reach([]state{{sl.Exit.Index, 0, -1}}, nil) {
+	var isNone func(v ssa.Value, depth int) bool
+	isNone = func(v ssa.Value, depth int) bool {
+		if isNilConst(v) {
+			return true
+		}
+		p, ok := v.(*ssa.Phi)
+		if !ok || depth > 3 {
+			return false
+		}
+		if p.Block() == sl.Exit && exhausted >= 0 {
+			return isNone(p.Edges[exhausted], depth+1)
+		}
+		if p.Block() == sl.Header {
+			// a variable carried round the loop: nil unless assigned in the loop — and an assignment followed by another
+			// round would show as a non-nil edge here
+			for _, e := range p.Edges {
+				if e != v && !isNone(e, depth+1) {
+					return false
+				}
+			}
+			return true
+		}
+		return false
+	}
+	for st := range fi.reach(starts, cut) {
 		if ret, ok := blockTerm(g.Blocks[st.b]).(*ssa.Return); ok {
-			if len(ret.Results) == 0 || !isNilConst(ret.Results[0]) {
+			if len(ret.Results) == 0 || !isNone(ret.Results[0], 0) {
 				return false, []string{"b" + strconv.Itoa(st.b) + " " + fi.blockPos(g.Blocks[st.b])}
 			}
 		}
@@ -713,4 +1144,820 @@ func c08PathForms(ref string) []c08PathForm {
 		out = append(out, c08PathForm{Idx: idx, Path: ref + "[:" + idx + "]"})
 	}
 	return out
+}
+
+// c08HelperFresh: v is the (single) result of a call of a module function with a body. handled=false if it is not.
+// The value shares nothing with anything that existed before the call if every return of the helper yields a value
+// that is freshly made in the helper (append to a nil / made slice, make, maps.Clone, nil, or again such a helper).
+func (w *World) c08HelperFresh(v ssa.Value, t types.Type, depth int) (handled, ok bool, why string) {
+	call, isCall := v.(*ssa.Call)
+	if !isCall {
+		return false, false, ""
+	}
+	g := staticCallee(call)
+	if g == nil || g.Blocks == nil || !w.IsProductFn(g) || g.Signature.Results().Len() != 1 {
+		return false, false, ""
+	}
+	n := 0
+	for _, b := range g.Blocks {
+		r, isRet := blockTerm(b).(*ssa.Return)
+		if !isRet {
+			continue
+		}
+		n++
+		if len(r.Results) != 1 {
+			return true, false, fnName(g) + ": unexpected result arity"
+		}
+		if ok, why := w.sharesNothing(g, r.Results[0], r.Results[0].Type(), r, depth+1); !ok {
+			return true, false, fnName(g) + ": " + why
+		}
+	}
+	return true, n > 0, fnName(g) + ": no return"
+}
+
+// ---- selection calls in the verifier, directly or through helpers ------------------------------------------------------
+
+// c08SelSet: the selection methods of the two document types, the verifier's selection helpers — functions that
+// return a statement pointer and an error and contain a selection call (directly or through another helper): their
+// statement is a selected statement and their failure is what their callers see of a failed selection — and, per
+// verifier function, its calls of either kind.
+type c08SelSet struct {
+	sel     map[*ssa.Function]bool
+	helper  map[*ssa.Function]bool
+	calls   map[*ssa.Function][]*ssa.Call
+	callers map[*ssa.Function][]*ssa.Function
+}
+
+func c08SelLike(w *World) *c08SelSet {
+	S := &c08SelSet{sel: map[*ssa.Function]bool{}, helper: map[*ssa.Function]bool{}, calls: map[*ssa.Function][]*ssa.Call{}, callers: map[*ssa.Function][]*ssa.Function{}}
+	for _, f := range selectionFns(w) {
+		S.sel[f] = true
+	}
+	handsOn := func(fn *ssa.Function) bool {
+		res := fn.Signature.Results()
+		if fn.Parent() != nil || res.Len() < 2 || !isErrorType(res.At(res.Len()-1).Type()) {
+			return false
+		}
+		for i := 0; i < res.Len()-1; i++ {
+			if c08IsStmtPtr(res.At(i).Type()) {
+				return true
+			}
+		}
+		return false
+	}
+	fns := w.FuncsOfPkg("verifier")
+	for round := 0; round < 4; round++ {
+		changed := false
+		for _, fn := range fns {
+			if S.helper[fn] || !handsOn(fn) {
+				continue
+			}
+			for _, ci := range allCalls(fn) {
+				if call, ok := ci.(*ssa.Call); ok {
+					if g := staticCallee(call); g != nil && (S.sel[g] || S.helper[g]) {
+						S.helper[fn] = true
+						changed = true
+					}
+				}
+			}
+		}
+		if !changed {
+			break
+		}
+	}
+	for _, fn := range fns {
+		seen := map[*ssa.Function]bool{}
+		for _, ci := range allCalls(fn) {
+			call, ok := ci.(*ssa.Call)
+			if !ok {
+				continue
+			}
+			g := staticCallee(call)
+			if g == nil || !(S.sel[g] || S.helper[g]) {
+				continue
+			}
+			S.calls[fn] = append(S.calls[fn], call)
+			if S.helper[g] && !seen[g] {
+				seen[g] = true
+				S.callers[g] = append(S.callers[g], fn)
+			}
+		}
+	}
+	return S
+}
+
+// converts: g is a selection helper every failing exit of which returns ErrorNoApplicableTrustPolicy.
+func (S *c08SelSet) converts(w *World, g *ssa.Function) bool {
+	if g == nil || !S.helper[g] {
+		return false
+	}
+	n := 0
+	for _, b := range g.Blocks {
+		r, ok := blockTerm(b).(*ssa.Return)
+		if !ok || len(r.Results) == 0 {
+			continue
+		}
+		ev := r.Results[len(r.Results)-1]
+		if isNilConst(ev) {
+			continue
+		}
+		if !c08IsNoApplicable(w, ev, 0) {
+			return false
+		}
+		n++
+	}
+	return n > 0
+}
+
+// c08Leaf: a call of a selection method reached from a verifier function through helpers, with the facts that guard
+// it and its arguments, both rendered in the frame of that verifier function. Fn == nil: not followed.
+type c08Leaf struct {
+	Fn     *ssa.Function
+	Guards map[string]string
+	Args   []string
+}
+
+func (S *c08SelSet) leaves(w *World, fn *ssa.Function, call *ssa.Call, depth int) []c08Leaf {
+	g := staticCallee(call)
+	guards := w.Info(fn).GuardsOf(call)
+	if guards == nil {
+		guards = map[string]string{}
+	}
+	var args []string
+	for _, a := range call.Call.Args {
+		args = append(args, desc(a))
+	}
+	if S.sel[g] {
+		return []c08Leaf{{Fn: g, Guards: guards, Args: args}}
+	}
+	if !S.helper[g] || depth >= 3 || len(call.Call.Args) != len(g.Params) {
+		return []c08Leaf{{}}
+	}
+	var names []string
+	for _, p := range g.Params {
+		names = append(names, p.Name())
+	}
+	var out []c08Leaf
+	for _, inner := range S.calls[g] {
+		for _, lf := range S.leaves(w, g, inner, depth+1) {
+			if lf.Fn == nil {
+				out = append(out, lf)
+				continue
+			}
+			l2 := c08Leaf{Fn: lf.Fn, Guards: map[string]string{}}
+			for l, site := range guards {
+				l2.Guards[l] = site
+			}
+			for l, site := range lf.Guards {
+				l = substParams(l, names, args)
+				l2.Guards[l] = site
+				if tw, ok := labelTwin(l); ok {
+					l2.Guards[tw] = site
+				}
+			}
+			for _, a := range lf.Args {
+				l2.Args = append(l2.Args, substParams(a, names, args))
+			}
+			out = append(out, l2)
+		}
+	}
+	return out
+}
+
+// c08ErrLabel: label l states `X op nil` where X is the error of one of the given calls (errDescs: their renderings),
+// or a variable that holds the error of one or the other of them (a phi all of whose edges are such errors).
+func c08ErrLabel(l, op string, errDescs []string) bool {
+	if !strings.HasPrefix(l, op+"(") || !strings.HasSuffix(l, ",nil)") {
+		return false
+	}
+	x := strings.TrimSuffix(strings.TrimPrefix(l, op+"("), ",nil)")
+	is := func(s string) bool {
+		for _, d := range errDescs {
+			if s == d {
+				return true
+			}
+		}
+		return false
+	}
+	if is(x) {
+		return true
+	}
+	if !strings.HasPrefix(x, "phi(") || !strings.HasSuffix(x, ")") {
+		return false
+	}
+	x = x[len("phi(") : len(x)-1]
+	depth, start, n := 0, 0, 0
+	for i := 0; i <= len(x); i++ {
+		if i < len(x) {
+			switch x[i] {
+			case '(', '[', '{':
+				depth++
+			case ')', ']', '}':
+				depth--
+			}
+		}
+		if i == len(x) || (x[i] == '|' && depth == 0) {
+			if !is(x[start:i]) {
+				return false
+			}
+			n++
+			start = i + 1
+		}
+	}
+	return n > 0
+}
+
+// c08IsIndexVar: p is an integer variable (a phi, not a loop counter) whose value is used — possibly after being merged
+// into another such variable — as the index of a slice element in fn, or is returned by fn: a remembered position.
+func c08IsIndexVar(fn *ssa.Function, p *ssa.Phi) bool {
+	bt, ok := p.Type().Underlying().(*types.Basic)
+	if !ok || bt.Info()&types.IsInteger == 0 || c08IsInduction(p) {
+		return false
+	}
+	seen := map[ssa.Value]bool{}
+	var used func(v ssa.Value, depth int) bool
+	used = func(v ssa.Value, depth int) bool {
+		if seen[v] || depth > 4 || v.Referrers() == nil {
+			return false
+		}
+		seen[v] = true
+		for _, r := range *v.Referrers() {
+			switch x := r.(type) {
+			case *ssa.IndexAddr:
+				if x.Index == v {
+					return true
+				}
+			case *ssa.Index:
+				if x.Index == v {
+					return true
+				}
+			case *ssa.Phi:
+				if !c08IsInduction(x) && used(x, depth+1) {
+					return true
+				}
+			case *ssa.Return:
+				return true // handed to the caller, which indexes with it (posFromCall)
+			}
+		}
+		return false
+	}
+	return used(p, 0)
+}
+
+// ---- precedence: abstract interpretation with tagged candidates -----------------------------------------------------------
+
+// Abstract values used by c08Prec, on top of the interpreter's own:
+//   - a remembered statement: {aNonNil, Str: "exact" | "wildcard"} — the pointer candidate, the clone of it, the element
+//     of the list at a remembered position; the tag travels with the value through phis, results and parameters;
+//   - a remembered position: {aNonNil, Str: tag, Int: c08IdxNonNeg | c08IdxAny}: an index >= 0 (every assignment in the
+//     loop is of a value with which a slice was indexed just before, so it was in range), resp. of unknown sign;
+//   - nothing remembered: {aNil} for a pointer, {aInt, Int: k, Str: "none"} for a position variable that starts as the
+//     negative constant k.
+const (
+	c08IdxNonNeg = 1
+	c08IdxAny    = 2
+)
+
+type c08Prec struct {
+	w     *World
+	fixed map[ssa.Value]bool // values whose entry in the environment is an input of the run (not to be re-evaluated)
+	steps int
+}
+
+func newC08Prec(w *World) *c08Prec { return &c08Prec{w: w, fixed: map[ssa.Value]bool{}} }
+
+func c08Some(some bool) string {
+	if some {
+		return "remembered"
+	}
+	return "none"
+}
+
+// candidate: the abstract value of candidate p (a phi of the loop header) when the loop is left with / without a
+// statement remembered in it. ok=false if p does not start as "nothing" (nil, resp. a negative constant).
+func (P *c08Prec) candidate(fn *ssa.Function, loop *sliceLoop, p *ssa.Phi, some bool, tag string) (AVal, bool) {
+	lb := loopBlocks(loop.Header)
+	var init ssa.Value
+	for i, e := range p.Edges {
+		if lb[loop.Header.Preds[i].Index] {
+			continue
+		}
+		if init != nil && init != e {
+			return AVal{}, false
+		}
+		init = e
+	}
+	if init == nil {
+		return AVal{}, false
+	}
+	if c08IsStmtPtr(p.Type()) {
+		if !isNilConst(init) {
+			return AVal{}, false
+		}
+		if !some {
+			return AVal{Kind: aNil}, true
+		}
+		return AVal{Kind: aNonNil, Str: tag}, true
+	}
+	if !c08NegConst(init) {
+		return AVal{}, false
+	}
+	if !some {
+		n, _ := constant.Int64Val(init.(*ssa.Const).Value)
+		return AVal{Kind: aInt, Int: n, Str: "none"}, true
+	}
+	sign := int64(c08IdxNonNeg)
+	for i, e := range p.Edges {
+		pred := loop.Header.Preds[i]
+		if !lb[pred.Index] || e == ssa.Value(p) {
+			continue
+		}
+		edges := []c08IdxEdge{{e, pred}}
+		if q, isPhi := e.(*ssa.Phi); isPhi && !c08IsInduction(q) {
+			edges = c08IndexEdges(q, map[*ssa.Phi]bool{p: true})
+		}
+		for _, ie := range edges {
+			if !c08InRangeAt(ie.V, ie.Pred) {
+				sign = c08IdxAny
+			}
+		}
+	}
+	return AVal{Kind: aNonNil, Str: tag, Int: sign}, true
+}
+
+// c08InRangeAt: when control is in block b, a slice has been indexed with v (in b or in a block that dominates it):
+// had v been negative, that access would have panicked.
+func c08InRangeAt(v ssa.Value, b *ssa.BasicBlock) bool {
+	if k, ok := v.(*ssa.Const); ok {
+		return k.Value != nil && k.Value.Kind() == constant.Int && !c08NegConst(v)
+	}
+	if v.Referrers() == nil {
+		return false
+	}
+	for _, r := range *v.Referrers() {
+		var at *ssa.BasicBlock
+		switch x := r.(type) {
+		case *ssa.IndexAddr:
+			if x.Index == v {
+				at = x.Block()
+			}
+		case *ssa.Index:
+			if x.Index == v {
+				at = x.Block()
+			}
+		}
+		if at != nil && (at == b || at.Dominates(b)) {
+			return true
+		}
+	}
+	return false
+}
+
+// c08CmpNonNeg: the truth of `x op k` for every x >= 0, if it is the same for all of them.
+func c08CmpNonNeg(op token.Token, k int64) (bool, bool) {
+	switch op {
+	case token.EQL:
+		if k < 0 {
+			return false, true
+		}
+	case token.NEQ:
+		if k < 0 {
+			return true, true
+		}
+	case token.LSS:
+		if k <= 0 {
+			return false, true
+		}
+	case token.LEQ:
+		if k < 0 {
+			return false, true
+		}
+	case token.GTR:
+		if k < 0 {
+			return true, true
+		}
+	case token.GEQ:
+		if k <= 0 {
+			return true, true
+		}
+	}
+	return false, false
+}
+
+func c08FlipOp(op token.Token) token.Token {
+	switch op {
+	case token.LSS:
+		return token.GTR
+	case token.GTR:
+		return token.LSS
+	case token.LEQ:
+		return token.GEQ
+	case token.GEQ:
+		return token.LEQ
+	}
+	return op
+}
+
+// ptrVal: the abstract value of a statement operand: the value itself, what the pointer it is loaded through points
+// to (value-receiver clone), or what a local copy was copied from.
+func (P *c08Prec) ptrVal(ip *Interp, v ssa.Value, env map[ssa.Value]AVal, depth int) AVal {
+	a := ip.val(v, env)
+	if a.Str != "" || a.Kind == aNil || depth > 4 {
+		return a
+	}
+	switch x := v.(type) {
+	case *ssa.UnOp:
+		if x.Op == token.MUL {
+			if b := P.ptrVal(ip, x.X, env, depth+1); b.Str != "" || b.Kind == aNil {
+				return b
+			}
+		}
+	case *ssa.Alloc:
+		if st := c08WholeStore(x); st != nil {
+			if b := P.ptrVal(ip, st.Val, env, depth+1); b.Str != "" {
+				return b
+			}
+		}
+	}
+	return a
+}
+
+func (P *c08Prec) interp(fn *ssa.Function, depth int) *Interp {
+	fi := P.w.Info(fn)
+	ip := &Interp{Fn: fn, IntTypes: map[string]bool{"*": true}}
+	ip.Hook = func(in ssa.Instruction, env map[ssa.Value]AVal) (AVal, bool) {
+		if v, isVal := in.(ssa.Value); isVal && P.fixed[v] {
+			if a, ok := env[v]; ok {
+				return a, true
+			}
+		}
+		switch x := in.(type) {
+		case *ssa.BinOp:
+			// a remembered position compared with a constant
+			a, b, op := ip.val(x.X, env), ip.val(x.Y, env), x.Op
+			if b.Kind == aNonNil && b.Int != 0 && a.Kind == aInt {
+				a, b, op = b, a, c08FlipOp(op)
+			}
+			if a.Kind == aNonNil && a.Int != 0 && b.Kind == aInt {
+				if a.Int == c08IdxNonNeg {
+					if r, ok := c08CmpNonNeg(op, b.Int); ok {
+						return AVal{Kind: aBool, B: r}, true
+					}
+				}
+				return top, true
+			}
+		case *ssa.IndexAddr:
+			// the element at a remembered position is the remembered statement
+			if a := ip.val(x.Index, env); a.Kind == aNonNil && a.Int != 0 && a.Str != "" {
+				return AVal{Kind: aNonNil, Str: a.Str}, true
+			}
+		case *ssa.Call:
+			g := staticCallee(x)
+			if g != nil && isCloneMethod(g) && len(x.Call.Args) == 1 {
+				// the clone of a remembered statement stands for that statement (a nil operand would panic)
+				if a := P.ptrVal(ip, x.Call.Args[0], env, 0); a.Kind == aNonNil && a.Int == 0 && a.Str != "" {
+					return a, true
+				}
+				return top, true
+			}
+			if g != nil && g.Blocks != nil && P.w.IsProductFn(g) && depth < 3 && len(x.Call.Args) == len(g.Params) {
+				// a module helper that is handed candidates (it picks among them): interpreted with its parameters
+				// bound; its result is known when all its abstract paths agree
+				tracked := false
+				sub := map[ssa.Value]AVal{}
+				for i, a := range x.Call.Args {
+					av := P.ptrVal(ip, a, env, 0)
+					sub[g.Params[i]] = av
+					if av.Str != "" || (c08IsStmtPtr(a.Type()) && (av.Kind == aNil || av.Kind == aNonNil)) {
+						tracked = true
+					}
+				}
+				if tracked {
+					for _, p := range g.Params {
+						P.fixed[p] = true
+					}
+					ip2 := P.interp(g, depth+1)
+					outs := ip2.Run(g.Blocks[0], nil, sub, nil, nil)
+					P.steps += ip2.Steps
+					var agreed []AVal
+					ok := len(outs) > 0 && !ip2.Overflow
+					for _, o := range outs {
+						if o.Panic {
+							continue
+						}
+						if o.Ret == nil {
+							ok = false
+							break
+						}
+						t := P.retVals(g, ip2, o)
+						if agreed == nil {
+							agreed = t
+						} else if c08TupleKey(agreed) != c08TupleKey(t) {
+							ok = false
+						}
+					}
+					if agreed == nil {
+						ok = false
+					}
+					if _, isTuple := x.Type().(*types.Tuple); isTuple {
+						if x.Referrers() != nil {
+							for _, r := range *x.Referrers() {
+								if e, isEx := r.(*ssa.Extract); isEx {
+									P.fixed[e] = true
+									env[e] = top
+									if ok && e.Index < len(agreed) {
+										env[e] = agreed[e.Index]
+									}
+								}
+							}
+						}
+						return top, true
+					}
+					if ok && len(agreed) == 1 {
+						return agreed[0], true
+					}
+					return top, true
+				}
+			}
+			if fi.nonNil(x, x.Block()) {
+				return AVal{Kind: aNonNil}, true
+			}
+		}
+		return AVal{}, false
+	}
+	return ip
+}
+
+// retVals: the abstract results of a return.
+func (P *c08Prec) retVals(fn *ssa.Function, ip *Interp, o Outcome) []AVal {
+	fi := P.w.Info(fn)
+	t := []AVal{}
+	for _, rv := range o.Ret.Results {
+		a := P.ptrVal(ip, rv, o.Env, 3)
+		if a.Kind == aTop && fi.nonNil(rv, o.Ret.Block()) {
+			a = AVal{Kind: aNonNil}
+		}
+		t = append(t, a)
+	}
+	return t
+}
+
+// run interprets fn from block start (entered from `from`) with the given inputs and returns the distinct result
+// tuples of the returns reached; nil stands for a path that does not return.
+func (P *c08Prec) run(fn *ssa.Function, start, from *ssa.BasicBlock, env map[ssa.Value]AVal) [][]AVal {
+	if env == nil {
+		return [][]AVal{nil}
+	}
+	for v := range env {
+		P.fixed[v] = true
+	}
+	ip := P.interp(fn, 0)
+	outs := ip.Run(start, from, env, nil, nil)
+	P.steps += ip.Steps
+	var res [][]AVal
+	if ip.Overflow {
+		res = append(res, nil)
+	}
+	for _, o := range outs {
+		if o.Ret == nil || len(o.Ret.Results) == 0 {
+			res = append(res, nil)
+			continue
+		}
+		res = append(res, P.retVals(fn, ip, o))
+	}
+	return c08DedupTuples(res)
+}
+
+// bindCall: the inputs of the calling frame: the results of the helper call bound to the tuple the helper returned.
+func (P *c08Prec) bindCall(call *ssa.Call, t []AVal) map[ssa.Value]AVal {
+	if t == nil {
+		return nil
+	}
+	env := map[ssa.Value]AVal{}
+	if tt, isTuple := call.Type().(*types.Tuple); isTuple {
+		if tt.Len() != len(t) || call.Referrers() == nil {
+			return nil
+		}
+		env[call] = top
+		for _, r := range *call.Referrers() {
+			if e, ok := r.(*ssa.Extract); ok {
+				env[e] = t[e.Index]
+			}
+		}
+		return env
+	}
+	if len(t) != 1 {
+		return nil
+	}
+	env[call] = t[0]
+	return env
+}
+
+func c08TupleKey(t []AVal) string {
+	if t == nil {
+		return "-"
+	}
+	var sb strings.Builder
+	for _, a := range t {
+		sb.WriteString(strconv.Itoa(a.Kind) + ":" + strconv.FormatInt(a.Int, 10) + ":" + a.Str + ":" + strconv.FormatBool(a.B) + "|")
+	}
+	return sb.String()
+}
+
+func c08DedupTuples(ts [][]AVal) [][]AVal {
+	seen := map[string]bool{}
+	var out [][]AVal
+	for _, t := range ts {
+		k := c08TupleKey(t)
+		if !seen[k] {
+			seen[k] = true
+			out = append(out, t)
+		}
+	}
+	return out
+}
+
+// c08Judge: what a result tuple (statement, error) of the selection method amounts to.
+func c08Judge(t []AVal) string {
+	if t == nil {
+		return "other:no return"
+	}
+	if len(t) != 2 {
+		return "other:unexpected result arity"
+	}
+	s, e := t[0], t[1]
+	switch {
+	case s.Kind == aNonNil && s.Int == 0 && (s.Str == "exact" || s.Str == "wildcard") && e.Kind == aNil:
+		return s.Str
+	case s.Kind == aNil && e.Kind == aNonNil:
+		return "error"
+	case s.Kind == aNil && e.Kind == aNil:
+		return "other:nil statement without error"
+	case s.Kind == aNonNil && e.Kind == aNonNil:
+		return "other:statement together with an error"
+	}
+	return "other:statement " + s.String() + " " + s.Str + ", error " + e.String()
+}
+
+// c08ExitValue: the k-th result of a success exit and the block in which it is judged. When the exit was reached
+// through a known predecessor edge (single return with result locals: the results are phis of the return block) the
+// result is the value assigned on that edge, judged at the end of that predecessor.
+func c08ExitValue(ex *ExitSum, k int) (ssa.Value, *ssa.BasicBlock) {
+	v, b := ex.Ret.Results[k], ex.Ret.Block()
+	if p, ok := v.(*ssa.Phi); ok && p.Block() == b && ex.Pred >= 0 && ex.Pred < len(p.Edges) {
+		return p.Edges[ex.Pred], b.Preds[ex.Pred]
+	}
+	return v, b
+}
+
+// c08IsNoApplicable: the error value is an ErrorNoApplicableTrustPolicy: built in place, by a module function every
+// return of which yields one (a constructor), or one of several such values.
+func c08IsNoApplicable(w *World, v ssa.Value, depth int) bool {
+	if depth > 3 {
+		return false
+	}
+	switch x := v.(type) {
+	case *ssa.MakeInterface:
+		return strings.Contains(namedOf(x.X.Type()), "NoApplicableTrustPolicy") // ErrorNoApplicableTrustPolicy is an alias of NoApplicableTrustPolicyError
+	case *ssa.Phi:
+		for _, e := range x.Edges {
+			if e != v && !c08IsNoApplicable(w, e, depth+1) {
+				return false
+			}
+		}
+		return len(x.Edges) > 0
+	case *ssa.Call:
+		g := staticCallee(x)
+		if g == nil || g.Blocks == nil || !w.IsProductFn(g) || g.Signature.Results().Len() != 1 {
+			return false
+		}
+		n := 0
+		for _, b := range g.Blocks {
+			if r, ok := blockTerm(b).(*ssa.Return); ok {
+				if len(r.Results) != 1 || !c08IsNoApplicable(w, r.Results[0], depth+1) {
+					return false
+				}
+				n++
+			}
+		}
+		return n > 0
+	}
+	return false
+}
+
+var (
+	c08ElemEqL = regexp.MustCompile(`^EQ\(` + c08STMT + `\.RegistryScopes\[[^\]]*\],(.*)\)$`)
+	c08ElemEqR = regexp.MustCompile(`^EQ\((.*),` + c08STMT + `\.RegistryScopes\[[^\]]*\]\)$`)
+)
+
+// c08Membership: the distinct values x for which the facts say "x is an element of STMT.RegistryScopes" under string
+// equality: slices.Contains(scopes, x) answered true; an element of scopes compared equal to x with == (what a
+// hand-written search or the module's own Contains passes before it answers true — the engine composes the helper's
+// facts); slices.Index(scopes, x) found (>= 0, > -1, != -1). All of these are whole-string ==: no prefix, substring or
+// case folding can produce them.
+func c08Membership(facts map[string]string) []string {
+	set := map[string]bool{}
+	scopes := c08STMT + ".RegistryScopes"
+	for l := range facts {
+		if pre := "T(call:slices.Contains(" + scopes + ","; strings.HasPrefix(l, pre) && strings.HasSuffix(l, "))") {
+			set[strings.TrimSuffix(strings.TrimPrefix(l, pre), "))")] = true
+			continue
+		}
+		if m := c08ElemEqL.FindStringSubmatch(l); m != nil {
+			set[m[1]] = true
+			continue
+		}
+		if m := c08ElemEqR.FindStringSubmatch(l); m != nil {
+			set[m[1]] = true
+			continue
+		}
+		if pre := "(call:slices.Index(" + scopes + ","; len(l) > 2 && strings.HasPrefix(l[2:], pre) {
+			rest := l[2+len(pre):]
+			for _, suf := range []string{"),const:0)", "),const:-1)"} {
+				if !strings.HasSuffix(rest, suf) {
+					continue
+				}
+				op := l[:2]
+				if (suf == "),const:0)" && op == "GE") || (suf == "),const:-1)" && (op == "GT" || op == "NE")) {
+					set[strings.TrimSuffix(rest, suf)] = true
+				}
+			}
+		}
+	}
+	return sortedKeys(set)
+}
+
+// c08ConstOnEdge: v is an integer constant, or a variable carried round a loop that is never assigned in it (a phi
+// whose edges other than itself are all that one constant).
+func c08ConstOnEdge(v ssa.Value) (int64, bool) {
+	switch x := v.(type) {
+	case *ssa.Const:
+		if x.Value != nil && x.Value.Kind() == constant.Int {
+			return constant.Int64Val(x.Value)
+		}
+	case *ssa.Phi:
+		var k int64
+		n := 0
+		for _, e := range x.Edges {
+			if e == v {
+				continue
+			}
+			c, ok := e.(*ssa.Const)
+			if !ok || c.Value == nil || c.Value.Kind() != constant.Int {
+				return 0, false
+			}
+			ck, exact := constant.Int64Val(c.Value)
+			if !exact || (n > 0 && ck != k) {
+				return 0, false
+			}
+			k = ck
+			n++
+		}
+		return k, n > 0
+	}
+	return 0, false
+}
+
+// c08LitFields: v is the value of a struct literal built in place (`T{f: x, …}`): a load of a local that is written only
+// by one store per field, all of them before the load, and read only by that load. The rendering of each stored field.
+func c08LitFields(v ssa.Value) (map[string]string, bool) {
+	ld, ok := v.(*ssa.UnOp)
+	if !ok || ld.Op != token.MUL {
+		return nil, false
+	}
+	al, ok := ld.X.(*ssa.Alloc)
+	if !ok || al.Referrers() == nil {
+		return nil, false
+	}
+	st, ok := al.Type().Underlying().(*types.Pointer).Elem().Underlying().(*types.Struct)
+	if !ok {
+		return nil, false
+	}
+	out := map[string]string{}
+	for _, r := range *al.Referrers() {
+		switch x := r.(type) {
+		case *ssa.UnOp:
+			if x != ld {
+				return nil, false
+			}
+		case *ssa.DebugRef:
+		case *ssa.FieldAddr:
+			if x.Referrers() == nil || len(*x.Referrers()) != 1 {
+				return nil, false
+			}
+			s, isStore := (*x.Referrers())[0].(*ssa.Store)
+			if !isStore || s.Addr != ssa.Value(x) {
+				return nil, false
+			}
+			before := s.Block() == ld.Block() && instrIndex(s) < instrIndex(ld) || s.Block() != ld.Block() && s.Block().Dominates(ld.Block())
+			name := st.Field(x.Field).Name()
+			if _, dup := out[name]; dup || !before {
+				return nil, false
+			}
+			out[name] = desc(s.Val)
+		default:
+			return nil, false
+		}
+	}
+	return out, true
 }
